@@ -5,6 +5,8 @@ import os
 ROOT = os.path.dirname(os.path.dirname(os.path.abspath(__file__)))
 
 BUILT = {
+    "C01": ("DESIGN.md 3/C01", "inductive one-chunk step of the plaintext reassembly from every valid buffer state (all cut pairs, symbolic types and payload bytes, three chunk types) plus end-to-end 2-3 chunk runs and _read_varuint on arbitrary bytes",
+            "CrossHair bytes/bytearray/memoryview models; reference encoder; representation invariant of the buffer stated in the harness and re-established end-to-end by h01b"),
     # id: (design_ref, level text, level note)
     "C02": ("DESIGN.md 3/C02", "every batch written by the plaintext helper decodes under the strict reference decoder to the packets given, for all symbolic types/payload bytes inside the listed length classes; varuint encoder exact for all v < 2^64",
             "CrossHair int/bytes models + plugin bit-op encodings; reference decoder is the documented format; noise part: ideal-AEAD recorder, concrete keys"),
